@@ -11,7 +11,8 @@ checks, na = [], []
 for p in props:
     pid = p["id"]
     path = os.path.join(here, "gridrv", "props", pid.lower() + ".py")
-    if not os.path.exists(path):
+    ready = set(open(os.path.join(here, "tools", "ready.txt")).read().split())
+    if not os.path.exists(path) or pid not in ready:
         na.append({"property_id": pid, "reason": "check not built yet (work in progress); the technique applies, see DESIGN.md section 4"})
         continue
     mod = importlib.import_module("gridrv.props." + pid.lower())
